@@ -391,7 +391,16 @@ func (c *Check) within(pg *PG, rule, construct, desc string, x string, first, th
 		c.add(rule, construct, desc+" — no range loop over "+x+" found", false, "")
 		return false
 	}
-	srcs := edgeSources(pg, then)
+	// source states of 'then' edges (an edge that also carries 'first' is fine)
+	var srcs []*PState
+	for _, s := range pg.States {
+		for _, e := range s.Out {
+			if e.has(then.F) && !e.has(first.F) {
+				srcs = append(srcs, s)
+				break
+			}
+		}
+	}
 	// reach a source state of a 'then' edge without passing 'first' nor re-entering the head
 	back := AnyOf(first, RangeNext(x), RangeDone(x))
 	path, found := c.search(pg, body, inSet(srcs), blockedBy(back))
